@@ -107,9 +107,78 @@ def struct_fields(src, name):
     return re.findall(r"(?m)^\s*(?:pub(?:\([a-z]+\))?\s+)?([a-z_][a-z0-9_]*)\s*:", body)
 
 
+def split_top(text):
+    """split at commas that are not nested in (), [], {} or <>-free closures"""
+    out, depth, cur = [], 0, []
+    for c in text:
+        if c in "([{":
+            depth += 1
+        elif c in ")]}":
+            depth -= 1
+        if c == "," and depth == 0:
+            out.append("".join(cur))
+            cur = []
+        else:
+            cur.append(c)
+    if "".join(cur).strip():
+        out.append("".join(cur))
+    return out
+
+
+ORIGIN = re.compile(r"\b(self|frame|state|saved)\s*\.\s*([a-z_][a-z0-9_]*)")
+ROLE = {"self": "vm", "frame": "frame", "state": "state", "saved": "saved"}
+
+
+def origin_of(expr, body, params, seen=()):
+    m = ORIGIN.search(expr)
+    if m:
+        return "%s.%s" % (ROLE[m.group(1)], m.group(2))
+    ident = re.match(r"\s*([a-z_][a-z0-9_]*)\b", expr)
+    if ident and ident.group(1) not in seen:
+        name = ident.group(1)
+        lets = re.findall(r"\blet\s+(?:mut\s+)?%s\b[^=;]*=([^;]*);" % name, body)
+        if lets:
+            return origin_of(lets[-1], body, params, seen + (name,))
+        if name in params:
+            return "param.%s" % name
+    return "fresh"
+
+
+def literal_flow(body, lit, params):
+    m = re.search(r"\b%s\s*\{" % lit, body)
+    if not m:
+        return []
+    k, depth = m.end(), 1
+    while k < len(body) and depth:
+        depth += {"{": 1, "}": -1}.get(body[k], 0)
+        k += 1
+    out = []
+    for part in split_top(body[m.end():k - 1]):
+        part = part.strip()
+        if not part:
+            continue
+        mm = re.match(r"([a-z_][a-z0-9_]*)\s*:(.*)$", part, re.S)
+        if mm:
+            field, expr = mm.group(1), mm.group(2)
+        else:
+            field, expr = part, part
+        out.append("%s <- %s" % (field, origin_of(expr, body, params)))
+    return out
+
+
 def coq_list(name, items):
     body = "; ".join('"%s"' % x.replace('"', "'") for x in items)
     return "Definition %s : list string := [%s]." % (name, body)
+
+
+def coq_flow(name, items):
+    """ "field <- role.src" lines as (field, (role, src)) triples; "fresh" has role fresh and empty src """
+    out = []
+    for it in items:
+        field, origin = [x.strip() for x in it.split("<-")]
+        role, _, src = origin.partition(".")
+        out.append('("%s", ("%s", "%s"))' % (field, role, src))
+    return "Definition %s : list (string * (string * string)) := [%s]." % (name, "; ".join(out))
 
 
 def facts():
@@ -158,6 +227,39 @@ def facts():
     for fn in ("save_state", "from_saved_state"):
         body = next((b for n, b, _ in functions(vm_src) if n == fn), "")
         f["assigns_" + fn] = sorted(set(re.findall(r"(?m)^\s*([a-z_][a-z0-9_]*)\s*:", body)))
+    # where every field of the saved / rebuilt structures comes from: "<field> <- <origin>"
+    # origin = vm.<f> | frame.<f> (a caller's trampoline frame) | state.<f> | saved.<f> | param.<name> | fresh
+    for fn, lits in (("save_state", ("SavedVmState", "SavedTrampolineFrame")),
+                     ("from_saved_state", ("Self", "TrampolineFrame"))):
+        body = next((b for n, b, _ in functions(vm_src) if n == fn), "")
+        sig = re.search(r"fn\s+%s\s*\(([^)]*)\)" % fn, vm_src)
+        params = re.findall(r"([a-z_][a-z0-9_]*)\s*:", sig.group(1)) if sig else []
+        for lit in lits:
+            f["flow_%s_%s" % (fn, lit)] = literal_flow(body, lit, params)
+    # generators keep their own copy of the saved state: what they store at a yield and what they rebuild from
+    mod_src = dict(inter).get("src/interpreter/mod.rs", "")
+    gbody = next((b for n, b, _ in functions(mod_src) if n == "resume_bytecode_generator"), "")
+    stores = sorted(set("%s <- state.%s" % (a, b) for a, b in
+                        re.findall(r"state\.(saved_[a-z_]+)\s*=\s*yield_(?:star_)?result\.state\.([a-z_]+)\s*;", gbody)))
+    f["flow_generator_store"] = stores
+    gl = []
+    m = re.search(r"SavedVmState\s*\{", gbody)
+    if m:
+        k, depth = m.end(), 1
+        while k < len(gbody) and depth:
+            depth += {"{": 1, "}": -1}.get(gbody[k], 0)
+            k += 1
+        for part in split_top(gbody[m.end():k - 1]):
+            mm = re.match(r"\s*([a-z_][a-z0-9_]*)\s*(?::(.*))?$", part, re.S)
+            if not mm:
+                continue
+            field, expr = mm.group(1), (mm.group(2) or mm.group(1))
+            g = re.search(r"\b(saved_[a-z_]+)\b", expr)
+            o = "gen.%s" % g.group(1) if g else ("gen.this_value" if re.search(r"\bthis_value\b", expr) else
+                                                 "gen.args" if re.search(r"\bargs\b", expr) else
+                                                 "gen.chunk" if re.search(r"\bchunk\b", expr) else "fresh")
+            gl.append("%s <- %s" % (field, o))
+    f["flow_generator_resume"] = gl
     # ---- C01: the Pratt table -----------------------------------------------------------
     par = dict(inter).get("src/parser.rs", "")
     body = next((b for n, b, _ in functions(par) if n == "current_binary_op"), "")
@@ -190,7 +292,10 @@ GROUPS = {
     "C12": ["global_state_decls", "hash_iteration_sites"],
     "C14": ["env_guard_sites"],
     "C07": ["fields_BytecodeVM", "fields_SavedVmState", "fields_TrampolineFrame", "fields_SavedTrampolineFrame",
-            "assigns_save_state", "assigns_from_saved_state"],
+            "assigns_save_state", "assigns_from_saved_state",
+            "flow_save_state_SavedVmState", "flow_save_state_SavedTrampolineFrame",
+            "flow_from_saved_state_Self", "flow_from_saved_state_TrampolineFrame",
+            "flow_generator_store", "flow_generator_resume"],
     "C01": ["binop_table"],
     "C13": ["constants"],
     "C17": ["ffi_exports"],
@@ -201,7 +306,10 @@ def render(group, f):
     lines = ["(* GENERATED by tools/translate.py from %s -- do not edit *)" % REPO,
              "From Coq Require Import List String.", "Import ListNotations.", "Local Open Scope string_scope.", ""]
     for k in GROUPS[group]:
-        lines.append(coq_list(k, f[k]))
+        if k.startswith("flow_"):
+            lines.append(coq_flow(k, f[k]))
+        else:
+            lines.append(coq_list(k, f[k]))
     return "\n".join(lines) + "\n"
 
 
